@@ -177,6 +177,8 @@ pub struct PeerShared {
     pub cpr_requests: AtomicU64,
     /// bytes "typed" right behind the next DA1 reply: they go out in the same write as the reply
     pub after_da1: Mutex<Vec<u8>>,
+    /// the terminal thinks this long before it answers a query
+    pub reply_delay_ms: AtomicU64,
 }
 
 pub struct Peer {
@@ -196,6 +198,7 @@ impl Peer {
             hung_up: AtomicBool::new(false),
             cpr_requests: AtomicU64::new(0),
             after_da1: Mutex::new(Vec::new()),
+            reply_delay_ms: AtomicU64::new(0),
         });
         let sh = shared.clone();
         let handle = std::thread::spawn(move || {
@@ -262,6 +265,10 @@ impl Peer {
                     scanned = rec.len();
                 }
                 if !reply.is_empty() {
+                    let delay = sh.reply_delay_ms.load(Ordering::SeqCst);
+                    if delay > 0 {
+                        std::thread::sleep(Duration::from_millis(delay));
+                    }
                     unsafe {
                         libc::write(master, reply.as_ptr() as *const _, reply.len());
                     }
